@@ -46,6 +46,44 @@ def handle (req : Sx) : Sx :=
     match bl.toListOf? Sx.toNat?, br.toListOf? Sx.toNat?, Codec.doc d, Codec.selList s, Codec.nsMap n with
     | some bl, some br, some d, some s, some n => .list (qs.map (runQuery (mkEnv bl br) d s n))
     | _, _, _, _, _ => .list [.int (-9)]
+  -- nth service: (1 a b var (kinds) elIndex): kinds: 0 = not counted, 1 = counted
+  | .list [.int 1, .int a, .int b, var, kinds, el] =>
+    match var.toBool?, kinds.toListOf? Sx.toNat?, el.toNat? with
+    | some var, some kinds, some el =>
+      let walk : List (Nat × Nat) := (List.range kinds.length).zip kinds
+      Sx.ofBool (Nth.matchOne (fun x => x.2 == 1) (fun x => x.1 == el) a b var walk)
+    | _, _, _ => .int (-9)
+  -- language filter service: (2 range tag)
+  | .list [.int 2, r, t] =>
+    match r.toStr?, t.toStr? with
+    | some r, some t => Sx.ofBool (Lang.extendedFilter wildStripImpl r t)
+    | _, _ => .int (-9)
+  -- Inputs.parse_value service: (3 itype value)
+  | .list [.int 3, ty, v] =>
+    match ty.toStr?, v.toStr? with
+    | some ty, some v =>
+      match Inputs.parseValue ty v with
+      | none => .list []
+      | some (.ints l) => .list [.int 0, .list (l.map (fun n => .int (Int.ofNat n)))]
+      | some (.num neg m e) => .list [.int 1, Sx.ofBool neg, .int (Int.ofNat m), .int e]
+    | _, _ => .int (-9)
+  -- Inputs.ltP on two parsed values of a type: (4 itype a b) -> (a<b) or () if either is invalid
+  | .list [.int 4, ty, a, b] =>
+    match ty.toStr?, a.toStr?, b.toStr? with
+    | some ty, some a, some b =>
+      match Inputs.parseValue ty a, Inputs.parseValue ty b with
+      | some x, some y => .list [Sx.ofBool (Inputs.ltP x y)]
+      | _, _ => .list []
+    | _, _, _ => .int (-9)
+  -- validators: (5 year week) / (6 year month day)
+  | .list [.int 5, y, w] =>
+    match y.toNat?, w.toNat? with
+    | some y, some w => Sx.ofBool (Inputs.validateWeek y w)
+    | _, _ => .int (-9)
+  | .list [.int 6, y, m, d] =>
+    match y.toNat?, m.toNat?, d.toNat? with
+    | some y, some m, some d => Sx.ofBool (Inputs.validateDay y m d)
+    | _, _, _ => .int (-9)
   | _ => .list [.int (-10)]
 
 partial def loop (h : IO.FS.Stream) (out : IO.FS.Stream) : IO Unit := do
